@@ -199,6 +199,8 @@ def rule_ascii_origin(col, facts):
         if f.crate not in WRITER_CRATES:
             continue
         for i, b in enumerate(f.blocks):
+            if not f.live(i):
+                continue
             for st in b["s"]:
                 if st[0] != "=":
                     continue
